@@ -734,4 +734,141 @@ theorem CUS.step_inv {seen : List Conf} {s : CUS} (hi : s.Inv seen) (op : CSOp) 
     · simp at hc
     · exact hi.cache_ok id' it hc
 
+/-! ## Synchronisation pipeline → custom-filter stamps -/
+
+/-- `x` is older than every stamp a later `Profiles` call can put on a profile. -/
+def Sync.Older (stamp : Stamp) (s : Sync) (x : Int) : Prop :=
+  ∀ now' req', s.now < now' → x < stamp now' req'
+
+structure Sync.Inv (stamp : Stamp) (s : Sync) : Prop where
+  db_ok : ∀ id c, s.db id = some c → c.id = id ∧ s.Older stamp c.upd
+  file_ok : ∀ id c, s.file id = some c → c.id = id ∧ s.Older stamp c.upd
+  cache_ok : ∀ id it, s.cache id = some it →
+    s.Older stamp it.upd ∧ ∀ c, s.db id = some c → ¬ it.upd < c.upd → it.rules = c.rules
+
+theorem Sync.init_inv (stamp : Stamp) : Sync.init.Inv stamp :=
+  ⟨by intro id c h; simp [Sync.init, Tbl.empty] at h, by intro id c h; simp [Sync.init, Tbl.empty] at h,
+   by intro id it h; simp [Sync.init, Tbl.empty] at h⟩
+
+theorem delivered_id {backend : List BProf} {full : Bool} {req : Int} {id : String} {p : BProf}
+    (h : delivered backend full req id = some p) : p.id = id := by
+  have := List.find?_some h
+  simp only [Bool.and_eq_true, beq_iff_eq] at this
+  exact this.1
+
+/-- A request looks at the cache entry of its own profile only and leaves a usable entry behind. -/
+theorem Sync.query_out {stamp : Stamp} {s : Sync} (hi : s.Inv stamp) (id : String) :
+    (s.step stamp (.query id)).2 = s.fresh id := by
+  simp only [Sync.step, Sync.fresh]
+  split
+  · rename_i c hc
+    simp only [CU.step, cuFresh]
+    split
+    · rfl
+    · split
+      · rename_i it hit
+        split
+        · rfl
+        · rename_i hlt
+          have hid := (hi.db_ok id c hc).1
+          rw [hid] at hit
+          rw [(hi.cache_ok id it hit).2 c hc hlt]
+      · rfl
+  · rfl
+
+theorem Sync.step_inv {stamp : Stamp} (hs : StrictStamp stamp) {s : Sync} (hi : s.Inv stamp) (op : YOp) :
+    (s.step stamp op).1.Inv stamp := by
+  cases op with
+  | change id rules dt => exact ⟨hi.db_ok, hi.file_ok, hi.cache_ok⟩
+  | restart =>
+    refine ⟨hi.file_ok, hi.file_ok, ?_⟩
+    intro id it h
+    simp [Sync.step, Tbl.empty] at h
+  | evict id =>
+    refine ⟨hi.db_ok, hi.file_ok, ?_⟩
+    intro id' it h
+    simp only [Sync.step, Tbl.del] at h
+    split at h
+    · simp at h
+    · exact hi.cache_ok id' it h
+  | query id =>
+    simp only [Sync.step]
+    split
+    · rename_i c hc
+      have hcid := (hi.db_ok id c hc).1
+      have hcold := (hi.db_ok id c hc).2
+      have hput : Sync.Inv stamp { s with cache := Tbl.put s.cache c.id ⟨c.upd, c.rules⟩ } := by
+        refine ⟨hi.db_ok, hi.file_ok, ?_⟩
+        intro id' it h
+        simp only [Tbl.put] at h
+        split at h
+        · rename_i heq
+          simp only [Option.some.injEq] at h
+          subst h
+          refine ⟨hcold, ?_⟩
+          intro c' hc' _
+          have : id' = id := by rw [heq, hcid]
+          rw [this, hc] at hc'
+          simp only [Option.some.injEq] at hc'
+          rw [hc']
+        · exact hi.cache_ok id' it h
+      simp only [CU.step]
+      split
+      · exact hi
+      · split
+        · split
+          · exact hput
+          · exact hi
+        · exact hput
+    · exact hi
+  | sync full dt =>
+    have hlt : s.now < s.now + dt + 1 := by omega
+    have older_mono : ∀ x, s.Older stamp x →
+        ∀ now' req', s.now + dt + 1 < now' → x < stamp now' req' := by
+      intro x hx now' req' h
+      exact hx now' req' (by omega)
+    have hdb : ∀ id c,
+        (match delivered s.backend full (if full then 0 else s.syncTime) id with
+          | some p => some (confOf p (stamp (s.now + dt + 1) (if full then 0 else s.syncTime)))
+          | none => if full then none else s.db id) = some c →
+        c.id = id ∧ ∀ now' req', s.now + dt + 1 < now' → c.upd < stamp now' req' := by
+      intro id c h
+      split at h
+      · rename_i p hp
+        simp only [Option.some.injEq] at h
+        subst h
+        exact ⟨delivered_id hp, fun now' req' hn => hs _ _ _ _ hn⟩
+      · split at h
+        · simp at h
+        · exact ⟨(hi.db_ok id c h).1, older_mono _ (hi.db_ok id c h).2⟩
+    refine ⟨?_, ?_, ?_⟩
+    · intro id c h
+      exact hdb id c h
+    · intro id c h
+      simp only [Sync.step] at h
+      split at h
+      · rename_i hf
+        subst hf
+        exact hdb id c h
+      · exact ⟨(hi.file_ok id c h).1, older_mono _ (hi.file_ok id c h).2⟩
+    · intro id it h
+      have hc := hi.cache_ok id it h
+      refine ⟨older_mono _ hc.1, ?_⟩
+      intro c hdbc hn
+      simp only [Sync.step] at hdbc
+      split at hdbc
+      · rename_i p hp
+        simp only [Option.some.injEq] at hdbc
+        subst hdbc
+        exact absurd (hc.1 _ _ hlt) hn
+      · split at hdbc
+        · simp at hdbc
+        · exact hc.2 c hdbc hn
+
+theorem Sync.final_inv {stamp : Stamp} (hs : StrictStamp stamp) (ops : List YOp) {s : Sync} (hi : s.Inv stamp) :
+    (Sync.final stamp s ops).Inv stamp := by
+  induction ops generalizing s with
+  | nil => exact hi
+  | cons op ops ih => exact ih (Sync.step_inv hs hi op)
+
 end Agd.ResultCache
